@@ -1000,6 +1000,10 @@ func (ex *Exec) rangeStart(st *State, in *ssa.Range) *Val {
 		ks, it.Dom.S, it.Ord.S, it.Ord.S, it.Card.S, it.Inv.S, it.Ord.S, it.Ord.S))
 	st.emit(fmt.Sprintf("(assert (forall ((p Int)) (! (=> (and (<= 0 p) (< p %s)) (and (select %s (select %s p)) (= (select %s (select %s p)) p))) :pattern ((select %s p)))))",
 		it.Card.S, it.Dom.S, it.Inv.S, it.Ord.S, it.Inv.S, it.Inv.S))
+	if sortOfType(mt.Key()) == SString {
+		// every key of the domain is the interned image of a string
+		st.emit(fmt.Sprintf("(assert (forall ((p Int)) (! (=> (and (<= 0 p) (< p %s)) (= (sk (ks (select %s p))) (select %s p))) :pattern ((ks (select %s p))))))", it.Card.S, it.Inv.S, it.Inv.S, it.Inv.S))
+	}
 	ex.cellSeq++
 	st.cells[ex.cellSeq] = scalar(tZero, types.Typ[types.Int])
 	return &Val{Typ: in.Type(), Iter: it, Addr: &Addr{Kind: aCell, Cell: ex.cellSeq}}
